@@ -575,3 +575,11 @@ def finalize(ctx):
             totals[k] = totals.get(k, 0) + n
     if totals:
         ctx.extra["deviating_evaluations_by_key"] = dict(sorted(totals.items()))
+    cpu, worst = {}, []
+    for sp, r in zip(ctx.specs, ctx.results):
+        ms = ((r or {}).get("events") or {}).get("cpu_ms", 0)
+        nm = sp.get("name", sp["kind"])
+        cpu[nm] = cpu.get(nm, 0) + ms
+        worst.append((ms, nm, sp.get("chunk", sp.get("i0"))))
+    ctx.extra["cpu_s_by_stratum"] = {k: round(v / 1000, 1) for k, v in cpu.items()}
+    ctx.extra["slowest_specs_s"] = [[round(m / 1000, 1), n, c] for m, n, c in sorted(worst, reverse=True)[:5]]
